@@ -287,6 +287,9 @@ def main(argv):
             # the float accessors have a different shape without `half` (no 0xf9 arms): the quick tier covers that build too
             expl += ' The same rules are also run on the build without the `half` feature.'
             other_configurations(ctx, only=('core-none',))
+        if ctx.tier == 'quick' and ctx.pid == 'C04':
+            expl += ' The accessor and impl tables are also extracted on a 32-bit build (lengths >= 2^32 answer Overflow there; everything else is the same table).'
+            other_configurations(ctx, only=('core-alloc-t32',))
         if ctx.tier == 'quick' and ctx.pid == 'C07':
             expl += ' The built-in impls are also measured on a 32-bit build (CborLen for usize / isize goes through u32 / i32 there).'
             other_configurations(ctx, only=('core-alloc-t32',))
